@@ -315,6 +315,40 @@ func cmdCheck(args []string) int {
 			}
 		}
 	}
+	// untagged preserves clauses of functions that carry no property tag are checked by no
+	// property of their own: they are obligations of every run that relied on them at a call site
+	{
+		var keys []string
+		for k := range p.framesUsed {
+			keys = append(keys, k)
+		}
+		sort.Strings(keys)
+		have := map[string]bool{}
+		for _, o := range all {
+			have[o.Name] = true
+		}
+		for _, k := range keys {
+			fc := p.framesUsed[k]
+			fn := p.fnByID[k]
+			if fn == nil || len(fc.Tags) > 0 {
+				continue
+			}
+			svc := newFnVC(p, fn, fc, k)
+			svc.prop = *prop
+			added := false
+			for _, o := range svc.preservesObligations() {
+				if len(o.Tags) == 0 && !have[o.Name] {
+					o.Tags = []string{*prop}
+					all = append(all, o)
+					preSolved[o] = true
+					added = true
+				}
+			}
+			if added {
+				vcs = append(vcs, svc)
+			}
+		}
+	}
 	// module callees that were given the property's default frame contract: their preserves
 	// clauses are obligations of this run too
 	{
